@@ -935,8 +935,8 @@ func ubjsonMarkerTables(p *core.Prog, r *core.Result) {
 	sp := p.SPkgs["ubjson"]
 	ut := p.LookupFunc("ubjson", "uintType")
 	mx := p.LookupFunc("ubjson", "maxNumType")
-	if sp == nil || ut == nil || mx == nil {
-		r.Undecided(".UBJSON-MARKERS", "ubjson.uintType", "uintType / maxNumType not found")
+	if sp == nil || ut == nil {
+		r.Undecided(".UBJSON-MARKERS", "ubjson.uintType", "uintType not found")
 		return
 	}
 	// uintType: walk the comparison chain: `u <= C` true edge returns marker M
@@ -979,6 +979,10 @@ func ubjsonMarkerTables(p *core.Prog, r *core.Result) {
 		}
 	}
 	r.Floor("uintType_rows", rows, 5)
+	if mx == nil {
+		// no pairwise maximum of markers in this tree (the widest marker is chosen from the largest value instead)
+		return
+	}
 	// maxNumType: arms in order must have non-increasing ranges, i.e. the
 	// first arm that matches is the widest marker of the two
 	var order []string
